@@ -46,7 +46,7 @@ SAN_ENV = {
     'ASAN_OPTIONS': 'abort_on_error=1:detect_leaks=0:detect_stack_use_after_return=1:quarantine_size_mb=8:'
                     'allocator_may_return_null=1:handle_abort=0',
     'UBSAN_OPTIONS': 'print_stacktrace=1',
-    'TSAN_OPTIONS': 'halt_on_error=1:second_deadlock_stack=1:exitcode=66',
+    'TSAN_OPTIONS': 'halt_on_error=1:second_deadlock_stack=1:exitcode=66:ignore_noninstrumented_modules=1:suppressions=' + os.path.join(VERIF, 'lib', 'tsan.supp'),
 }
 
 
@@ -171,6 +171,7 @@ def scratch_dir(tag):
 
 SAN_SUMMARY_RE = re.compile(r'SUMMARY: (\w+Sanitizer): (.*)')
 FRAME_RE = re.compile(r'#\d+ 0x[0-9a-f]+ in (.+?) (/\S+?):(\d+)')
+TSAN_FRAME_RE = re.compile(r'#\d+ (\S.*?) (/\S+?):(\d+) \(')
 
 
 def sanitizer_key(stderr_text):
@@ -193,14 +194,25 @@ def sanitizer_key(stderr_text):
     if m5:
         kind = 'assert:' + m5.group(1)[:80]
     frame = None
-    for fm in FRAME_RE.finditer(stderr_text):
-        fn, path = fm.group(1), fm.group(2)
+    frames = [(fm.group(1), fm.group(2)) for fm in FRAME_RE.finditer(stderr_text)]
+    if not frames:
+        frames = [(fm.group(1), fm.group(2)) for fm in TSAN_FRAME_RE.finditer(stderr_text)]
+    for fn, path in frames:
         if '/include/osmium/' in path:
             fn = re.sub(r'<.*>', '<>', fn)
             fn = re.sub(r'\(.*', '', fn)
             frame = fn + '@' + os.path.basename(path)
             break
     return (kind or 'crash') + (' in ' + frame if frame else '')
+
+
+def _report_excerpt(stderr_text, n=6000):
+    """the sanitizer report from its first line on (not the tail of stderr)"""
+    for marker in ('WARNING: ThreadSanitizer', 'ERROR: AddressSanitizer', 'runtime error:', 'Assertion `'):
+        i = stderr_text.find(marker)
+        if i >= 0:
+            return stderr_text[max(0, i - 200):i + n]
+    return stderr_text[-3500:]
 
 
 class ShardResult:
@@ -411,7 +423,7 @@ def run_sharded(binary, total, seed, tier, args=(), env=None, shards=None, timeo
                 key = sanitizer_key(r['stderr'])
                 if key == 'crash':
                     key = 'crash rc=%s %s' % (r['rc'], crash.get('why', '') if crash else '')
-                local.violations.append(dict(key=key, detail=r['stderr'][-3500:], case=case, desc=desc,
+                local.violations.append(dict(key=key, detail=_report_excerpt(r['stderr']), case=case, desc=desc,
                                              binary=binary, args=base_args))
                 local.crashes += 1
             restarts += 1
